@@ -40,6 +40,7 @@ def run(prog, rep):
     stateless(prog, rep, "C10.stateless", methods(prog, {f"{IV}.IntervalSlicer": ["slice_", "_drop_too_small_intervals"], f"{IV}.WidthOfIntervalSlicer": ["_slice"],
                                                           f"{IV}.NumberOfIntervalsSlicer": ["_slice"], f"{IV}.PointsPerIntervalSlicer": ["_slice"]}), what="slicing")
     rep.expect_min("C10.stateless", 5)
+    rep.explanation += " C10.stateless: slice_ / _slice / _drop_too_small_intervals write no attribute of the slicer and mutate neither it nor the data (effect summaries)."
     rep.expect_min("C10.align", 4)
     rep.expect_min("C10.ops", 5)
     rep.expect_min("C10.edge", 4)
